@@ -71,7 +71,7 @@ EXHAUSTIVE = {"quick": True, "thorough": True}
 
 RESERVED = ["flow_id", "flow_instance_uid", "source_flow_instance_uid", "source_head_uid", "flow_hierarchy_position", "activated"]
 PNAMES = ["a", "b", "c", "d", "e", "p", "q"]
-VALUES = [None, True, False, 0, 1, 2, 7, 12, 0.5, 1.5, 2.25, "s", "hello world", "", "7", [], [1, 2], ["x", None], [[1], {"k": 2}], {}, {"k": 1},
+VALUES = [None, True, False, 0, 1, 2, 7, 12, 0.5, 1.5, 2.25, "s", "hello world", "", "7", "a=b", "x, y", "p)q(", "k: v # no", "and or not", [], [1, 2], ["x", None], [[1], {"k": 2}], {}, {"k": 1},
           {"k": [1, 2], "j": None}, {"n": {"m": True}}]
 SCALARS_DISTINCT = [None, 2, 3, 7, 12, "s", "t", "hello"]
 
@@ -153,8 +153,15 @@ def render_stmt(st):
     if op == "block":
         return "match Never()"
     if op == "call":
-        args = [render_expr(e) for e in st["pos"]] + [f"{k}={render_expr(e)}" for k, e in st["named"]]
-        s = f"{st['form']} {st['flow']}" + ("(" + ", ".join(args) + ")" if args else "")
+        # (simple syntax is ambiguous where a positional argument that starts with `[` follows another one: `f None [1, 2]` is
+        #  the subscript `None[1, 2]` — such calls are written in the classic syntax)
+        if st.get("syntax") == "simple" and (st["pos"] or st["named"]) and not any(render_expr(e).startswith("[") for e in st["pos"][1:]):
+            # the second call syntax of Colang 2.x (`simple_arguments`): `await fa 1 "x" $b=2` — its own branch in the transformer
+            args = [render_expr(e) for e in st["pos"]] + [f"${k}={render_expr(e)}" for k, e in st["named"]]
+            s = f"{st['form']} {st['flow']} " + " ".join(args)
+        else:
+            args = [render_expr(e) for e in st["pos"]] + [f"{k}={render_expr(e)}" for k, e in st["named"]]
+            s = f"{st['form']} {st['flow']}" + ("(" + ", ".join(args) + ")" if args else "")
         return (f"${st['ret']} = " if st.get("ret") else "") + s
     if op == "mut":
         # in-place mutation through an expression side effect: `($x.append(..))` / `$z = $x[0].append(..)`
@@ -310,6 +317,7 @@ def enum_fn_shapes(max_n):
 
 
 CALLEES = ["fa", "fb", "fc"]
+CALL_SYNTAX = ["classic", "classic", "simple"]   # `f(1, b=2)` / `f 1 $b=2`
 LOCALS = ["v", "w"]
 
 
@@ -346,7 +354,7 @@ def g_call(rng, flows_by_name, target, form, scope_vars, ret=None, mode=None):
         named.append(["zz", lit(rng.choice(SCALARS_DISTINCT))])
     elif mode == "dup-named" and named:
         named.append([named[0][0], lit(rng.choice(SCALARS_DISTINCT))])
-    return {"op": "call", "form": form, "ret": ret, "flow": target, "pos": pos, "named": named}
+    return {"op": "call", "form": form, "ret": ret, "flow": target, "pos": pos, "named": named, "syntax": rng.choice(CALL_SYNTAX)}
 
 
 def g_prog(rng, mode=None):
@@ -565,7 +573,7 @@ def g_hist(rng, passed=False):
         pos = [arg(p["name"]) for p in params[:k]]
         named = [[p["name"], arg(p["name"])] for p in params[k:] if rng.random() < 0.2]
         rng.shuffle(named)
-        return {"op": "call", "form": form, "ret": ret, "flow": target, "pos": pos, "named": named}
+        return {"op": "call", "form": form, "ret": ret, "flow": target, "pos": pos, "named": named, "syntax": rng.choice(CALL_SYNTAX)}
 
     for i in reversed(range(nfl)):
         f = flows[i]
@@ -929,7 +937,7 @@ def g_act_probe(rng):
             else:
                 named.append([nm, e])
         rng.shuffle(named)
-        calls.append({"form": form, "flow": fl["name"], "pos": pos, "named": named})
+        calls.append({"form": form, "flow": fl["name"], "pos": pos, "named": named, "syntax": rng.choice(CALL_SYNTAX)})
     split = rng.randrange(1, ncalls) if rng.random() < 0.25 else ncalls   # calls[split:] are issued by the second caller `hb`
     act = {"flows": flows, "calls": calls, "variant": variant, "split": split, "mvars": [[k_, vj.enc(v)] for k_, v in mvars.items()],
            "pings": rng.choice([1, 2]) if variant == "ping" else 0}
